@@ -247,6 +247,9 @@ MutualChoice ==
         /\ Eff(st[e].res.encs) \in SeqSet(sess[e[1]].o.encs)
         /\ Eff(st[e].res.encs) \in sess[e[1]].i.supported
 FaultNeverSuccess == \A e \in Ends : st[e].taint => ~Ok(e)
+\* a malformed frame consumed by the responder ends in an error for the initiator too (it is still waiting for
+\* the reply); stated for behaviours whose only fault is that frame
+CorruptionEndsBoth == \A s \in Sessions : (st[<<s, "I">>].taint /\ nf = 1) => ~Ok(<<s, "O">>)
 PoolClean == resets = AllFields => \A o \in BagToSet(pooled) : o = ZeroObj
 Terminates == <>[]AllDone
 =============================================================================
